@@ -7,19 +7,17 @@ for it.
 * `a1` while a task is inside `TaskGroup.__aexit__` of `g` (`InAexit`), the group scope is hosted by
   it (until it has been left);
 * `b1` once `__aexit__` has recorded an exception of the body (`bodyErrs ≠ []`, or the group is
-  marked by `K`), some task is inside `__aexit__` of `g` or the block has ended.
+  marked by `K`), some task is inside `__aexit__` of `g` or the block has ended;
+* `d1`, `d2` allocation facts: a handle scope is neither a group scope nor the scope a library
+  coroutine of that task is going to leave;
+* `e1` the exception `__aexit__` carries along has the non-cancellation leaves of `bodyErrs`;
+* `y1` a task inside `TaskGroup.start` waiting for the readiness future is never suspended in a
+  bare `yield`;
+* `c1` a task that has not started yet has a `TaskHandle`.
 
-`HInv K ext exg`: `ext` exempts one task from `h1`, `exg` one group from `b1` (for the few
-intermediate states of a transition in which they do not hold).
-
-STATUS: the invariant, the inert relation `HSame`, the closure lemmas for every elementary update
-(`HostInv2.lean`) and `hinv_aexit_disabled` (a marked group cannot start `__aexit__` again) are
-proved.  NOT yet done: the pass over `step` (`hinv_step`, `hinv_reach`; same skeleton as
-`FutInv4/5`, threading `WFR` with the `WFR.*` lemmas of `WF7`).  For that pass two more fields are
-needed so that `hinv_exitPre` can be applied to the exits of library scopes:
-`d1 : g < nGroups → hscope u ≠ some (groups g).scope` and
-`d2 : lib t ∈ {shChk s, aexitChk _ s _, aexitWait _ s _, startJoin _ _ s _} → hscope t ≠ some s`
-(both are allocation facts: the scope was allocated after the handle scope, `WF.hscope_lt`).
+`HInv K ext pa`: `ext` exempts one task from `h1`; `pa = some (g, t)`: task `t` has executed the
+guard of `__aexit__` of `g` and is about to record that in its `lib` field (it counts as being
+inside `__aexit__` for `a1`, `b1`; `x1`: nobody else is; `e1` is suspended for `g`).
 -/
 import AnyioModel.Kernel.FutInv5
 
@@ -28,18 +26,43 @@ namespace AnyioModel.Kernel
 def InAexit (st : State) (g t : Nat) : Prop :=
   ∃ s ev, (st.tasks t).lib = .aexitChk g s ev ∨ (st.tasks t).lib = .aexitWait g s ev
 
-structure HInv (K : Nat → Prop) (ext exg : Option Nat) (st : State) : Prop where
+/-- inside `__aexit__` of `g`, or about to be -/
+def InAexitP (st : State) (pa : Option (Nat × Nat)) (g t : Nat) : Prop :=
+  InAexit st g t ∨ pa = some (g, t)
+
+/-- the scope the library coroutine is going to leave -/
+def libScope : Lib → Option Nat
+  | .shChk s => some s
+  | .aexitChk _ s _ => some s
+  | .aexitWait _ s _ => some s
+  | .startJoin _ _ s _ => some s
+  | _ => none
+
+/-- non-cancellation leaves -/
+def nc (l : List Exc) : List Exc := l.filter (fun e => !e.isCancel)
+
+structure HInv (K : Nat → Prop) (ext : Option Nat) (pa : Option (Nat × Nat)) (st : State) :
+    Prop where
   h1 : ∀ t s, some t ≠ ext → (st.tasks t).scope = some s → (st.tasks t).st ≠ .done →
     (st.tasks t).st ≠ .created → (st.scopes s).host = some t
   p1 : ∀ s t p, (st.scopes s).host = some t → (st.scopes s).parent = some p →
     (st.tasks t).hscope ≠ some s → (st.scopes p).host = some t
-  a1 : ∀ t g, InAexit st g t → g < st.nGroups ∧
+  a1 : ∀ t g, InAexitP st pa g t → g < st.nGroups ∧
     (st.scopes (st.groups g).scope).entered = true ∧
     ((st.scopes (st.groups g).scope).host = some t ∨
       (st.scopes (st.groups g).scope).active = false)
-  b1 : ∀ g, some g ≠ exg → ((st.groups g).bodyErrs ≠ [] ∨ K g) →
-    (st.groups g).exited = true ∨ ∃ t, InAexit st g t
+  b1 : ∀ g, ((st.groups g).bodyErrs ≠ [] ∨ K g) →
+    (st.groups g).exited = true ∨ ∃ t, InAexitP st pa g t
   l0 : ∀ t, st.nTasks ≤ t → (st.tasks t).lib = .none
+  d1 : ∀ g u, g < st.nGroups → (st.tasks u).hscope ≠ some (st.groups g).scope
+  d2 : ∀ t s, libScope (st.tasks t).lib = some s → (st.tasks t).hscope ≠ some s
+  e1 : ∀ t g s ev, (∀ t0, pa ≠ some (g, t0)) →
+    ((st.tasks t).lib = .aexitChk g s ev ∨ (st.tasks t).lib = .aexitWait g s ev) →
+    nc ev.leaves = nc (st.groups g).bodyErrs
+  x1 : ∀ g t0, pa = some (g, t0) → ∀ u, ¬ InAexit st g u
+  k0 : ∀ g, K g → g < st.nGroups
+  y1 : ∀ t g u f, (st.tasks t).lib = .startWait g u f → (st.tasks t).st ≠ .yielded
+  c1 : ∀ t, (st.tasks t).st = .created → t < st.nTasks → (st.tasks t).hscope ≠ none
 
 /-- two states agree on everything `HInv` reads -/
 structure HSame (a b : State) : Prop where
@@ -48,6 +71,7 @@ structure HSame (a b : State) : Prop where
   lib : ∀ t, (b.tasks t).lib = (a.tasks t).lib
   done : ∀ t, (b.tasks t).st = .done ↔ (a.tasks t).st = .done
   created : ∀ t, (b.tasks t).st = .created ↔ (a.tasks t).st = .created
+  yielded : ∀ t, (b.tasks t).st = .yielded ↔ (a.tasks t).st = .yielded
   host : ∀ s, (b.scopes s).host = (a.scopes s).host
   parent : ∀ s, (b.scopes s).parent = (a.scopes s).parent
   active : ∀ s, (b.scopes s).active = (a.scopes s).active
@@ -62,8 +86,8 @@ theorem HSame.refl (a : State) : HSame a a := by
   constructor <;> intros <;> rfl
 
 theorem HSame.trans {a b c : State} (h1 : HSame a b) (h2 : HSame b c) : HSame a c := by
-  obtain ⟨a1, a2, a3, a4, a5, a6, a7, a8, a9, a10, a11, a12, a13, a14⟩ := h1
-  obtain ⟨b1, b2, b3, b4, b5, b6, b7, b8, b9, b10, b11, b12, b13, b14⟩ := h2
+  obtain ⟨a1, a2, a3, a4, a5, a6, a7, a8, a9, a10, a11, a12, a13, a14, a15⟩ := h1
+  obtain ⟨b1, b2, b3, b4, b5, b6, b7, b8, b9, b10, b11, b12, b13, b14, b15⟩ := h2
   constructor <;> intros <;> simp [*]
 
 theorem HSame.of_cframe {a b : State} (c : CFrame a b) : HSame a b := by
@@ -73,6 +97,7 @@ theorem HSame.of_cframe {a b : State} (c : CFrame a b) : HSame a b := by
   · exact fun t => (c.tasks t).lib
   · exact fun t => (c.tasks t).st_done
   · exact fun t => (c.tasks t).st_created
+  · exact fun t => (c.tasks t).st_yielded
   · exact fun s => (c.scopes s).host
   · exact fun s => (c.scopes s).parent
   · exact fun s => (c.scopes s).active
@@ -87,8 +112,12 @@ theorem inAexit_hsame {a b : State} (s : HSame a b) {g t : Nat} :
     InAexit b g t ↔ InAexit a g t := by
   unfold InAexit; rw [s.lib]
 
-theorem hinv_hsame {K : Nat → Prop} {ext exg : Option Nat} {a b : State}
-    (h : HInv K ext exg a) (s : HSame a b) : HInv K ext exg b := by
+theorem inAexitP_hsame {a b : State} (s : HSame a b) {pa : Option (Nat × Nat)} {g t : Nat} :
+    InAexitP b pa g t ↔ InAexitP a pa g t := by
+  unfold InAexitP; rw [inAexit_hsame s]
+
+theorem hinv_hsame {K : Nat → Prop} {ext : Option Nat} {pa : Option (Nat × Nat)} {a b : State}
+    (h : HInv K ext pa a) (s : HSame a b) : HInv K ext pa b := by
   constructor
   · intro t sc he hs hd hc
     rw [s.scope] at hs; rw [s.host]
@@ -97,24 +126,65 @@ theorem hinv_hsame {K : Nat → Prop} {ext exg : Option Nat} {a b : State}
     rw [s.host] at hh ⊢; rw [s.parent] at hp; rw [s.hscope] at hn
     exact h.p1 sc t p hh hp hn
   · intro t g hi
-    rw [inAexit_hsame s] at hi
+    rw [inAexitP_hsame s] at hi
     rw [s.nGroups, s.gscope, s.entered, s.host, s.active]
     exact h.a1 t g hi
-  · intro g he hb
+  · intro g hb
     rw [s.bodyErrs] at hb; rw [s.exited]
-    rcases h.b1 g he hb with h1 | ⟨t, ht⟩
+    rcases h.b1 g hb with h1 | ⟨t, ht⟩
     · exact .inl h1
-    · exact .inr ⟨t, (inAexit_hsame s).mpr ht⟩
+    · exact .inr ⟨t, (inAexitP_hsame s).mpr ht⟩
   · intro t ht
     rw [s.nTasks] at ht; rw [s.lib]; exact h.l0 t ht
+  · intro g u hg
+    rw [s.nGroups] at hg; rw [s.hscope, s.gscope]; exact h.d1 g u hg
+  · intro t sc hl
+    rw [s.lib] at hl; rw [s.hscope]; exact h.d2 t sc hl
+  · intro t g sc ev hp hl
+    rw [s.lib] at hl; rw [s.bodyErrs]; exact h.e1 t g sc ev hp hl
+  · intro g t0 hp u hu
+    exact h.x1 g t0 hp u ((inAexit_hsame s).mp hu)
+  · intro g hk; rw [s.nGroups]; exact h.k0 g hk
+  · intro t g u f hl hy
+    rw [s.lib] at hl
+    exact h.y1 t g u f hl ((s.yielded t).mp hy)
+  · intro t hc hlt
+    rw [s.nTasks] at hlt; rw [s.hscope]
+    exact h.c1 t ((s.created t).mp hc) hlt
 
 theorem hinv_init : HInv (fun _ => False) none none init := by
+  have hlib : ∀ t, (init.tasks t).lib = .none := by
+    intro t; simp [init]; split <;> simp
   constructor
   · intro t s _ hs; simp [init] at hs; split at hs <;> simp at hs
   · intro s t p hh; simp [init] at hh
-  · intro t g ⟨s, ev, hi⟩; simp [init] at hi; split at hi <;> simp at hi
-  · intro g _ hb; simp [init] at hb
-  · intro t _; simp [init]; split <;> simp
+  · intro t g hi
+    rcases hi with ⟨s, ev, hi⟩ | hi
+    · rw [hlib] at hi; rcases hi with hi | hi <;> cases hi
+    · cases hi
+  · intro g hb; simp [init] at hb
+  · intro t _; exact hlib t
+  · intro g u hg; simp [init] at hg
+  · intro t s hl; rw [hlib] at hl; cases hl
+  · intro t g s ev _ hl; rw [hlib] at hl; rcases hl with hl | hl <;> cases hl
+  · intro g t0 hp; cases hp
+  · intro g hk; exact hk.elim
+  · intro t g u f hl; rw [hlib] at hl; cases hl
+  · intro t hc hlt
+    have : t = 0 := by simp [init] at hlt; omega
+    subst this; simp [init] at hc
+
+/-- dropping the exemption of a task for which `h1` holds anyway -/
+theorem hinv_unext {K : Nat → Prop} {pa : Option (Nat × Nat)} {x : State} {t : Nat}
+    (h : HInv K (some t) pa x)
+    (ht : ∀ s, (x.tasks t).scope = some s → (x.tasks t).st ≠ .done → (x.tasks t).st ≠ .created →
+      (x.scopes s).host = some t) : HInv K none pa x := by
+  obtain ⟨a1, a2, a3, a4, a5, a6, a7, a8, a9, a10, a11, a12⟩ := h
+  refine ⟨?_, a2, a3, a4, a5, a6, a7, a8, a9, a10, a11, a12⟩
+  intro u s _ hs hd hc
+  by_cases hu : u = t
+  · subst hu; exact ht s hs hd hc
+  · exact a1 u s (by simpa using hu) hs hd hc
 
 /-! ### the structural part of `__enter__` / `__exit__` as seen by `HInv` -/
 
